@@ -60,31 +60,31 @@ type KOp struct {
 
 // KPlan is a plan of the client engine (E3).
 type KPlan struct {
-	Scenario  int             `json:"scenario"`  // 8, 16, 17, 18
-	Transport int             `json:"transport"` // 0 stub Netlink field, 1 real NetlinkClient over SimSocket
-	ReplySize int             `json:"reply_size"`
-	Status    []uint32        `json:"init_status,omitempty"`
-	InitRules []uint32        `json:"init_rules,omitempty"` // rule ids installed before the run
-	PortID    uint32          `json:"port_id"`
+	Scenario  int      `json:"scenario"`  // 8, 16, 17, 18
+	Transport int      `json:"transport"` // 0 stub Netlink field, 1 real NetlinkClient over SimSocket
+	ReplySize int      `json:"reply_size"`
+	Status    []uint32 `json:"init_status,omitempty"`
+	InitRules []uint32 `json:"init_rules,omitempty"` // rule ids installed before the run
+	PortID    uint32   `json:"port_id"`
 	// Preload: so many ordinary, fault-free commands are issued on the client
 	// before the plan's operations (what a long-lived client has behind it).
 	// PreStyle picks the mix: 0 GetStatus, 1 synchronous setters, 2 NoWait setters
 	// then one WaitForPendingACKs, 3 a cycle of all commands, 4 like 3 with 1..3
 	// audit records ahead of every reply.
-	Preload   int             `json:"preload,omitempty"`
-	PreStyle  int             `json:"pre_style,omitempty"`
-	SeqStart  uint32          `json:"seq_start,omitempty"` // sequence number the transport used last (fast-forward towards the uint32 wrap)
-	Ops       []KOp           `json:"ops"`
-	Tasks     [][]KOp         `json:"tasks,omitempty"` // concurrent phase (closers / senders)
-	Faults    []kern.ReqFault `json:"faults,omitempty"`
-	Recv      []KRecv         `json:"recv,omitempty"`
-	SendErr   []int           `json:"send_errno,omitempty"`
-	CloseErr  []int           `json:"close_errno,omitempty"`     // errno reported by the n-th close(2) on the socket
-	RecvHard  []int           `json:"recv_enobufs_at,omitempty"` // receive calls (ordinal over the run) that fail hard with ENOBUFS
-	Tape      []uint16        `json:"tape,omitempty"`
-	Strategy  int             `json:"strategy,omitempty"`
-	Auto      uint32          `json:"auto_density,omitempty"` // statement-level pre-emption in the concurrent phase
-	AutoSalt  uint32          `json:"auto_salt,omitempty"`
+	Preload  int             `json:"preload,omitempty"`
+	PreStyle int             `json:"pre_style,omitempty"`
+	SeqStart uint32          `json:"seq_start,omitempty"` // sequence number the transport used last (fast-forward towards the uint32 wrap)
+	Ops      []KOp           `json:"ops"`
+	Tasks    [][]KOp         `json:"tasks,omitempty"` // concurrent phase (closers / senders)
+	Faults   []kern.ReqFault `json:"faults,omitempty"`
+	Recv     []KRecv         `json:"recv,omitempty"`
+	SendErr  []int           `json:"send_errno,omitempty"`
+	CloseErr []int           `json:"close_errno,omitempty"`     // errno reported by the n-th close(2) on the socket
+	RecvHard []int           `json:"recv_enobufs_at,omitempty"` // receive calls (ordinal over the run) that fail hard with ENOBUFS
+	Tape     []uint16        `json:"tape,omitempty"`
+	Strategy int             `json:"strategy,omitempty"`
+	Auto     uint32          `json:"auto_density,omitempty"` // statement-level pre-emption in the concurrent phase
+	AutoSalt uint32          `json:"auto_salt,omitempty"`
 }
 
 func (p *KPlan) Valid() bool {
